@@ -3,7 +3,7 @@
    Path strings are lists of code points; `kresolve cwd p` is where the operating system lands when
    it is handed the string p while the process working directory is cwd (no symbolic links);
    `real_segs raw` are the segments of raw other than '' and '.'. *)
-From RipV Require Import Base.Prelude Base.Fs Model.Paths Proofs.PathsProofs.
+From RipV Require Import Base.Prelude Base.Fs Model.Paths Proofs.PathsProofs Gen.Resolvers.
 
 (* the resolver of read / write / ls / grep / bash cwd / task cwd and Workspace::safe_join: whatever
    string is accepted lands exactly at <root>/<real segments of the string> — for every root, every
@@ -91,6 +91,31 @@ Theorem c13_refused_patch_reaches_no_store : forall (root raw : str) (e : N),
   patch_target root raw = Err e -> parse_rel_path raw = Err e.
 Proof. exact auto_patch_refused_before_store. Qed.
 Print Assumptions c13_refused_patch_reaches_no_store.
+
+(* tie T1: the resolvers are interpreted from STEP LISTS; tools/gen/resolvers.py reads the lists from /repo's
+   source on every run (Gen/Resolvers.v).  For every source whose lists are well-formed: the three tool / task /
+   safe_join resolvers (ids 1-3) are sound, parse_rel_path (4) yields a trimmed string that passes them,
+   to_relative (5) yields a string that passes them and lands below the root, and the auto-checkpoint's write
+   guard (6) refuses whatever the tool refuses *)
+Theorem c13_generated_resolvers_sound : forall (found : bool) (st ord : list (N * list N)),
+  resolvers_wf found st ord = true ->
+  forall (root raw p : str) (cwd : list str),
+    (interp (steps_of st 1) root raw = Ok p \/ interp (steps_of st 2) root raw = Ok p \/ interp (steps_of st 3) root raw = Ok p ->
+       kresolve cwd p = kresolve cwd root ++ real_segs raw)
+    /\ (interp (steps_of st 4) root raw = Ok p -> resolve_tool root p = Ok (join root p) /\ p = trim raw)
+    /\ (interp (steps_of st 5) root raw = Ok p ->
+          resolve_tool root p = Ok (restore_path root p) /\ kresolve cwd (restore_path root p) = kresolve cwd root ++ real_segs p)
+    /\ (forall e, resolve_tool root raw = Err e -> interp (steps_of st 6) root raw = Err e).
+Proof. exact generated_resolvers_sound. Qed.
+Print Assumptions c13_generated_resolvers_sound.
+
+(* the lists read from /repo's working tree on this run are well-formed; so are the order facts: create_checkpoint
+   relativises and joins to the root before it touches the store and probes / reads only the joined path, rewind
+   joins the recorded path to the root, every path-taking tool resolves its argument before its first
+   file-system or process use, and there is no builtin module the extractor does not know *)
+Theorem c13_repo_resolvers_wf : resolvers_wf gen_resolvers_found gen_resolver_steps gen_path_orders = true.
+Proof. exact gen_resolvers_ok. Qed.
+Print Assumptions c13_repo_resolvers_wf.
 
 (* the behaviour before the repairs (S10): the relativised string kept `..`, so rewind's
    `root.join(rel)` left the root *)
